@@ -375,7 +375,7 @@ type World struct {
 	Log    hclog.Logger
 	TmpDir string
 	zw     *gzip.Writer
-	// Perturb > 0 (self-test of the binding only): the Perturb-th rejection by archive.go read is
+	// Perturb > 0 (self-test of the binding only): every Perturb-th rejection by archive.go read is
 	// recorded as if the archive had been accepted with its original content.
 	Perturb  int
 	rejected int
@@ -785,7 +785,7 @@ func (w *World) Run(b *Base, a *Arch) (Obs, []byte) {
 		note("verifread", err)
 		o.VerifRead = kind(err, bytes.Equal(out.Bytes(), b.Payload), MetaEqual(&m, &b.Meta))
 		if err != nil && w.Perturb > 0 {
-			if w.rejected++; w.rejected == w.Perturb {
+			if w.rejected++; w.rejected%w.Perturb == 0 {
 				o.VerifRead = "same"
 			}
 		}
